@@ -64,7 +64,7 @@ from vgi_rpc.rpc._common import (
 from vgi_rpc.utils import ArrowSerializableDataclass, ValidatedReader, empty_batch, new_ipc_stream
 
 from .._common import _RpcHttpError
-from ._responses import _current_response_status, _enforce_response_budgets
+from ._responses import _current_response_status, _enforce_response_budgets, _error_response_stream
 from ._state_token import (
     _compute_aad,
     _compute_call_aad,
@@ -117,6 +117,9 @@ class _DispatchOutcome:
     response_state_bytes: bytes | None = None
     request_state_bytes: bytes | None = None
     cancelled: bool = False
+    # The exception behind a failure that was answered in-band (written into
+    # the response body instead of raised), so dispatch hooks still see it.
+    error: BaseException | None = None
 
 
 @contextlib.contextmanager
@@ -166,10 +169,23 @@ def _dispatch_telemetry(
     try:
         try:
             yield outcome
+        except _RpcHttpError as exc:
+            # Hooks are told what the method raised, not the HTTP envelope the
+            # shell wrapped it in (telemetry would record its type name).
+            hook_exc = exc.cause
+            if exc.body is None:
+                # The resource layer answers with an error stream (the log
+                # batches of the preamble, then the error batch).  Render it
+                # here, while this call's statistics are still live, so they
+                # count it as every other transport and call shape does.
+                exc.body = _error_response_stream(exc.cause, exc.schema, server_id=server_id, preamble=exc.preamble)
+            raise
         except BaseException as exc:
             hook_exc = exc
             raise
     finally:
+        if hook_exc is None:
+            hook_exc = outcome.error
         duration_ms = (time.monotonic() - start) * 1000
         _emit_access_log(
             protocol_name,
@@ -843,6 +859,7 @@ def _exchange_error_response(
     deliver an :class:`RpcError` round-trip instead.
     """
     outcome.status = "error"
+    outcome.error = exc
     outcome.error_type = _log_method_error(protocol_name, method_name, server_id, exc)
     outcome.error_message = _truncate_error_message(exc)
     # Signal the resource layer to surface this as 200 + X-VGI-RPC-Error: true
@@ -1085,6 +1102,7 @@ def _run_http_producer_turn(
                             f"({projected} > {max_external_bytes}) for method {method_name!r}"
                         )
                         outcome.status = "error"
+                        outcome.error = overshoot
                         outcome.error_type = _log_method_error(protocol_name, method_name, server_id, overshoot)
                         outcome.error_message = _truncate_error_message(overshoot)
                         # Hard cap (external channel has no escape valve) — signal
@@ -1136,6 +1154,7 @@ def _run_http_producer_turn(
                     break
         except Exception as exc:
             outcome.status = "error"
+            outcome.error = exc
             outcome.error_type = _log_method_error(protocol_name, method_name, server_id, exc)
             outcome.error_message = _truncate_error_message(exc)
             # Signal the resource layer to surface this as 200 +
